@@ -76,7 +76,7 @@ def pool_act_sig(a):
     if a["t"] == "TrySpawn":
         return "TrySpawn[%s]" % ("fail" if a["fail"] else ",".join(str(x) for x in a["ans"]))
     if a["t"] == "Removed":
-        return "Removed[%s,%s]" % (a["id"], a["reason"])
+        return "Removed[%s,%s]" % (a.get("id", "-"), a["reason"])
     return a["t"]
 
 
@@ -175,7 +175,7 @@ def pool_trace(out, tier, seed, name):
     events = sum(1 for _ in open(tf))
     cf = os.path.join(wd, "Trace_SpawnerPool_%s.cfg" % name)
     with open(cf, "w") as f:
-        f.write("CONSTANTS\n  Count = %d\n  Ignore = {%s}\n" % (cfg["Count"], ", ".join(str(x) for x in cfg["Ignore"])))
+        f.write("CONSTANTS\n  W = 4\n  Count = %d\n  Ignore = {%s}\n" % (cfg["Count"], ", ".join(str(x) for x in cfg["Ignore"])))
         f.write("INIT TraceInit\nNEXT TraceNext\nCHECK_DEADLOCK FALSE\n")
     lines = {"MISMATCH": [], "DONE": [], "DEV": [], "BAD": []}
     res = vf.run_tlc("Trace_SpawnerPool", cf, workers=1, timeout=1500, env={"TRACE": tf}, tags=tuple(lines),
@@ -241,6 +241,148 @@ MANIFEST["C35"] = dict(
          "the real spawner; the implementation is compared with the intended model after every step.",
     note="bounded model (count <= 3, 4-5 addresses, answers <= 3-4 addresses); wider parameters only in recorded random sessions; the NTS "
          "pool spawner is not exercised (needs a live key-exchange server); conformance only on behaviours replayed/recorded")
+
+
+# --------------------------------------------------------------------------------------------
+# C36  spawner pacing (spawner_task) and removal handling of the single-server spawner
+# --------------------------------------------------------------------------------------------
+STD_TEST = "daemon::spawn::standard::verif_hook::verif_standard"
+PACER_TEST = "daemon::spawn::verif_hook::verif_pacer"
+
+
+def generic_replay(out, prop, seed, module, cfg, crate, test, hcfg, act_sig, label, post_key="post", max_len=60, vacuity=None):
+    """(M)+(G) for a deterministic Post/Out model without expected deviations: every transition replayed."""
+    g, mc, inits = vf.collect_graph(module, cfg, workers=8, timeout=1500)
+    if mc.violated:
+        raise vf.ToolError("model %s/%s violates %s at design level:\n%s" % (module, cfg, mc.violated, mc.error_trace[:3000]))
+    out.add("states", mc.distinct)
+    out.add("transitions", mc.generated)
+    if not inits or not g.edges:
+        raise vf.ToolError("generator printed nothing (%s)" % cfg)
+    if vacuity:
+        for what, pred in vacuity.items():
+            if not any(pred(e[2]) for e in g.edges):
+                raise vf.ToolError("vacuous model run (%s): %s never happens" % (cfg, what))
+    wanted = [i for i, e in enumerate(g.edges) if e[2]["cones"].get(prop)]
+    if not wanted:
+        raise vf.ToolError("vacuous: no transition of %s is constrained by %s" % (cfg, prop))
+    rng = random.Random(seed)
+    walks = g.tours(inits[0], max_len=max_len, rng=rng, edge_filter=lambda rec: bool(rec["cones"].get(prop)))
+    rows = []
+    for n, w in enumerate(walks):
+        rows.append({"id": n, "walk": [dict(act=g.edges[e][2]["act"], post=g.edges[e][2]["post"], out=g.edges[e][2]["out"],
+                                             obs=g.edges[e][2].get("obs")) for e in w]})
+    wd = vf.workdir(label)
+    res = replay_walks(crate, test, hcfg, rows, wd, prop, seed)
+    confirmed, steps = set(), 0
+    for n, w in enumerate(walks):
+        r = res[n]
+        steps += r["steps_run"]
+        f = r["fail"]
+        confirmed.update(w[:(r["steps_run"] if f is None else f["step"])])
+        if f is None:
+            continue
+        rec = g.edges[w[f["step"]]][2]
+        fields = set(f["fields"])
+        cone = set(rec["cones"].get(prop, []))
+        detail = {"how": "replay", "cfg": cfg, "history": [g.edges[x][2]["act"] for x in w[:f["step"] + 1]],
+                  "expected": {"post": rec.get("obs") or rec["post"], "out": rec["out"]}, "observed": f.get("observed"),
+                  "panic": f.get("panic"), "differing": sorted(fields)}
+        if fields & cone:
+            out.violation("%s:%s:%s" % (label, act_sig(rec["act"]), ",".join(sorted(fields & cone))), detail)
+        else:
+            out.divergences.append(detail)
+            out.notes.append("divergence outside %s's cone (%s, fields %s)" % (prop, label, sorted(fields)))
+    out.add("replayed_steps", steps)
+    out.add("replayed_walks", len(walks))
+    out.add("model_transitions_constrained_by_property", len(wanted))
+    out.add("model_transitions_confirmed_on_impl", len([e for e in confirmed if e in set(wanted)]))
+    if walks:
+        w = walks[0][:6]
+        out.sample({"model": label, "walk_prefix": [act_sig(g.edges[e][2]["act"]) for e in w],
+                    "expected_after_last": g.edges[w[-1]][2].get("obs") or g.edges[w[-1]][2]["post"],
+                    "expected_out": g.edges[w[-1]][2]["out"]})
+    return g
+
+
+def pacer_act_sig(a):
+    if a["t"] == "Event":
+        return "Event[%s]" % a["k"]
+    if a["t"] == "Script":
+        return "Script[d=%s,c=%s]" % (a["d"], a["c"])
+    return a["t"]
+
+
+def pacer_trace(out, tier, seed):
+    wd = vf.workdir("SpawnerPacer_trace")
+    tf = os.path.join(wd, "trace.ndjson")
+    sessions, steps = (25, 150) if tier == "quick" else (300, 400)
+    vf.run_harness("ntpd", PACER_TEST, {"mode": "record", "cfg": {"tick_ms": 50, "max_d": 45, "qmax": 6}, "seed": seed,
+                                        "sessions": sessions, "steps": steps, "output": tf})
+    events = sum(1 for _ in open(tf))
+    lines = {"MISMATCH": [], "DONE": [], "BAD": []}
+    res = vf.run_tlc("Trace_SpawnerPacer", "Trace_SpawnerPacer.cfg", workers=1, timeout=1500, env={"TRACE": tf}, tags=tuple(lines),
+                     line_sink=lambda tag, obj: lines[tag].append(obj), coverage=False, xmx="4g")
+    if res.violated:
+        raise vf.ToolError("trace spec failed: %s\n%s" % (res.violated, res.error_trace[:2000]))
+    done = lines["DONE"]
+    if not done or done[-1].get("consumed") != events:
+        raise vf.ToolError("trace validation did not consume the whole trace (%s of %d events)\n%s" % (
+            done[-1] if done else None, events, res.stdout[-1500:]))
+    out.add("traces_validated_against_impl", done[-1].get("behaviours", 0))
+    out.add("trace_events", events)
+    starts = 0
+    with open(tf) as f:
+        for line in f:
+            if '"started":true' in line:
+                starts += 1
+    if starts < sessions:
+        raise vf.ToolError("vacuous trace: only %d attempts in %d sessions" % (starts, sessions))
+    out.add("trace_attempts_observed", starts)
+    for m in lines["BAD"]:
+        for wname in sorted(m["what"]):
+            out.violation("Spawner:Pacer:%s" % wname, {"how": "trace (model-level clause)", "trace": tf, "line": m["line"], "pre": m["pre"], "act": m["act"]})
+    for m in lines["MISMATCH"]:
+        out.violation("Spawner:Pacer:trace:%s:%s" % (pacer_act_sig(m["act"]), ",".join(sorted(m["fields"]))),
+                      {"how": "trace", "trace": tf, "line": m["line"], "pre": m.get("pre"), "act": m["act"],
+                       "expected": m["expected"], "observed": m["observed"], "panic": m.get("panic")})
+
+
+def run_c36(out, tier, seed):
+    out.coverage["rule"] = ("every transition of the bounded Pacer model (spawner_task around a scripted spawner, W = 4 ticks) is replayed "
+                            "on the real task on the paused tokio clock; every transition of the Standard model on the real "
+                            "StandardSpawner with scripted DNS; random Pacer sessions (W = 20 ticks) validated by Trace_SpawnerPacer")
+    out.assumptions += ["at one instant the task runs until it blocks before the environment acts (events never race a timer at the same instant)",
+                        "handlers of the scripted spawner take no time; events arrive on tick boundaries (250 ms in replay, 50 ms in traces)",
+                        "the wait period is measured from the return of try_spawn, as the code does",
+                        "NTS single-server spawner (needs a live key-exchange server) not exercised"]
+    generic_replay(out, "C36", seed, "MC_SpawnerPacer", "Gen_SpawnerPacer%s.cfg" % ("" if tier == "quick" else "_T"), "ntpd", PACER_TEST,
+                   {"tick_ms": 250}, pacer_act_sig, "Spawner:Pacer", max_len=60,
+                   vacuity={"attempt start": lambda r: r["out"]["started"], "attempt of non-zero duration": lambda r: r["post"]["busy"] > 0,
+                            "queued event": lambda r: len(r["post"]["q"]) > 0,
+                            "attempt triggered by the wait timer": lambda r: r["act"]["t"] == "Tick" and r["out"]["started"],
+                            "attempt triggered by an event": lambda r: r["act"]["t"] == "Event" and r["out"]["started"]})
+    generic_replay(out, "C36", seed, "MC_SpawnerStd", "Gen_SpawnerStd.cfg", "ntpd", STD_TEST, {}, pool_act_sig, "Spawner:Standard",
+                   vacuity={"create": lambda r: bool(r["out"]["creates"]),
+                            "demobilised": lambda r: r["post"]["demob"],
+                            "re-resolution": lambda r: r["pre"]["lastReason"] == "Unreachable" and bool(r["out"]["creates"]),
+                            "address reuse": lambda r: r["pre"]["lastReason"] == "NetworkIssue" and bool(r["out"]["creates"])})
+    pacer_trace(out, tier, seed)
+
+
+PROPS.append("C36")
+_RUN["C36"] = ("model_checking", run_c36)
+MANIFEST["C36"] = dict(
+    level="model_checking", engine="tlc+replay+trace", design_ref="6.10, 7 (daemon task group)",
+    technique="TLA+ models of the spawner task's ticket pacing and of the single-server spawner's removal handling (spec/Spawner.tla parts "
+              "Pacer, Standard) model-checked with TLC; every transition replayed on the real spawner_task (scripted spawner, paused "
+              "tokio clock, virtual times of try_spawn entry/exit) and the real StandardSpawner (scripted DNS); random sessions validated by TLC",
+    text="An attempt starts no earlier than one wait period after the previous attempt returned and, while the spawner is incomplete, "
+         "exactly when that period is over, for every interleaving of registration/removal/idle events, ticks and attempts of 0, 1 or 5 "
+         "ticks (period = 4 ticks); the standard spawner stays complete after a Demobilized removal, resolves afresh after Unreachable "
+         "and reuses its address after NetworkIssue.",
+    note="discrete time (250 ms ticks in the bounded model, 50 ms in recorded sessions); events only on tick boundaries and never racing a "
+         "timer at the same instant; scripted spawner handlers take no time; NTS spawner not exercised")
 
 
 # --------------------------------------------------------------------------------------------
